@@ -191,6 +191,18 @@ func multiScalarmultVartimeFinal(r, point *ge25519.Ge25519, scalar *modm.Bignum2
 		flag >>= 1
 	}
 
+	// r already holds [1]point for the leading bit, so the
+	// exponentiation continues with the bit below it.
+	flag >>= 1
+	if flag == 0 {
+		if limb == 0 {
+			return
+		}
+		limb--
+
+		flag = topbit
+	}
+
 	// exponentiate
 	for {
 		ge25519.Double(r, r)
